@@ -285,6 +285,7 @@ String RemoveEscapeChars(const String & s)
       if ((lastWasEscape)||(isEscape == false)) ret += c;
       lastWasEscape = ((isEscape)&&(lastWasEscape == false));
    }
+   if (lastWasEscape) ret += '\\';  // a trailing backslash escapes nothing:  StringMatcher treats it as a literal backslash, so we must too
    return ret;
 }
 
